@@ -222,6 +222,18 @@ def gen_arg(rng, S):
 
 # ------------------------------------------------------------------ (D) whole `cse`: generated forests
 
+# Real calls (both in FIXED_CALLS) on which the side conditions `cseCheck` of `cseTrees_preserves_sols_partial` are known
+# not to hold on the pinned tree, because einx itself is wrong there (docs/wp/cse.md, section (e)):
+#  1. a user axis `cse...` expands to `cse.0`, `cse.1` and collides with the fresh axis `cse.0`;
+#  2. the root-level filter of `cse` looks only at the first exprlist of a candidate, so `[c d]` at root level is
+#     replaced by one axis and stage 3 fails its `ndim` assertion.
+# Any *other* real call that does not meet the side conditions is a broken tie (premise of the theorem not established).
+DOCUMENTED_NOT_MET = {
+    ("(a b) cse.0 cse.1, (a b), , 6 2 3, 6, None", True, False),
+    ("a ([c d]) [c d], a (), 4 6 2 3, None", False, True),
+}
+
+
 def gen_forest(rng, S):
     """Expressions for `cse`, built with the real classes: a pool of sub-expressions is placed (as deep copies) several
     times, inside flattened axes / brackets / concatenations and as runs of children of longer lists, so that dict
@@ -234,7 +246,7 @@ def gen_forest(rng, S):
         if k < 0.22:
             counter[0] += 1
             return S.Axis(f"unnamed.{counter[0]}", rng.choice([1, 1, 2, 3]), [])
-        if k < 0.25:
+        if k < 0.226:
             return S.Axis(rng.choice(["cse.0", "cse.1"]), None, [])
         mn = 1 if rng.random() < 0.88 else rng.choice([2, 3])
         return S.Axis(rng.choice(names), None, [], min_value=mn)
@@ -376,7 +388,12 @@ def run_cse_trees(ctx, w, S, M):
             why = [k for k in ("wf", "used_ok", "pairs_ok") if not c[k]]
             ctx.count(f"cse_check:{src}:not-met:" + "+".join(why))
             if src == "captured":
-                uncovered.append({"cse_of": render_forest(rec["roots"]), "cse_concat": rec["cse_concat"], "cse_in_brackets": rec["cse_in_brackets"], "failed": why})
+                sig = (render_forest(rec["roots"]), rec["cse_concat"], rec["cse_in_brackets"])
+                uncovered.append({"cse_of": sig[0], "cse_concat": sig[1], "cse_in_brackets": sig[2], "failed": why,
+                                  "documented": sig in DOCUMENTED_NOT_MET})
+                if sig not in DOCUMENTED_NOT_MET:
+                    ctx.tie_broken("premise:cse_check", f"the side conditions of cseTrees_preserves_sols_partial ({'+'.join(why)}) do not hold for the real call "
+                                   f"cse({sig[0]!r}, cse_concat={sig[1]}, cse_in_brackets={sig[2]})")
     ctx.extra["cse_check_not_met_on_captured_calls"] = uncovered[:20]
     if len(w.seen_cse) == 0:
         ctx.tie_broken("correspondence:cse_trees", "no call of stage2.cse was captured (the wrapper on the package attribute was never reached)")
@@ -507,7 +524,11 @@ def run_cse(ctx):
     ctx.extra["cse_rule"] = ("value_range: (A) every argument/result of the real _value_range and _has_repeated_axis observed during real solve_shapes/matches/id/sum "
                              "calls (19 fixed CSE-typical descriptions incl. D3's, plus the C02 generator) vs the Lean model; (B) random stage-2 trees built with the real "
                              "constructors (values 0..4, min_value 1/2/3/5, repeated names, Python-list arguments) vs the Lean model; (C) brute-force value sets up to "
-                             f"{N_ORACLE} vs the real _value_range on the repetition-free positive ones")
+                             f"{N_ORACLE} vs the real _value_range on the repetition-free positive ones; (D) whole cse: every (expressions, options, result) of the real "
+                             "stage2.cse observed during the same real calls, plus generated forests (real constructors; shared sub-expressions, slices, concatenations, brackets, "
+                             "min_value > 1, both options) on which the real cse is called directly, compared structurally with the model cseTrees (driver kind cse_trees); the "
+                             "side conditions cseCheck of cseTrees_preserves_sols_partial are evaluated by the driver on the same inputs (kind cse_check): not met on a real "
+                             "call other than the two documented ones = broken tie")
     w = run_captured(ctx)
     items_vr = list(w.seen_vr.values())
     items_rep = list(w.seen_rep.values())
